@@ -34,6 +34,9 @@ class TagAntenna(pyrex.Antenna):
         return int(round(signal.values[0])) % 2 == 1
 
 
+_MISSING = object()
+
+
 class LazyNoiseAntenna(TagAntenna):
     """like a real noisy antenna, its noise master appears only when a waveform is first computed (the noise itself is zero,
     so waveforms stay exact); the basis the file must then hold is the stub's"""
@@ -131,7 +134,7 @@ def extra(p):
     return p['form'] in ('dictx', 'dictl', 'dictshort')
 
 
-def expected_event(c, k, p, lazy=False):
+def expected_event(c, k, p, lazy=False, noise=None):
     """what reading back the event of the k-th add must give (None = nothing recorded)"""
     e = {}
     e['particles'] = [particle_obs(x) for x in make_event(k, p)] if gate(c, 'particles', p) else None
@@ -156,12 +159,9 @@ def expected_event(c, k, p, lazy=False):
         e['rays'] = [[float(wtag(k, j, a)) if j < n_rays(p, a, k) else 0.0 for a in range(N_ANT)] for j in range(p['nr'])]
     else:
         e['rays'] = None
-    e['noise'] = [[float(k), float(a), 7.0] for a in range(N_ANT)] if gate(c, 'noise', p) else None
-    if lazy and e['noise'] is not None:
-        # the basis exists only for antennas whose waveforms were computed for this event -- by the writer itself when it stores
-        # waveforms or per-antenna / extra triggers -- and then it must be in the file (D41: it was written before it existed)
-        computed = gate(c, 'waveforms', p) or (gate(c, 'triggers', p) and (gate(c, 'antenna_triggers', p) or extra(p)))
-        e['noise'] = [row if (computed and n_waves(p, a, k) > 0) else [] for a, row in enumerate(e['noise'])]
+    # noise bases: what the antennas' noise consisted of when the event was added (recorded by the driver from the public
+    # attributes of the antennas' noise right after the add; [] for an antenna that had no noise yet)
+    e['noise'] = (noise if noise is not None else 'unobservable') if gate(c, 'noise', p) else None
     if gate(c, 'waveforms', p):
         e['waveforms'] = [[float(wtag(k, j, a)) if j < n_waves(p, a, k) else None for a in range(N_ANT)]
                           for j in range(p['nw'])]
@@ -219,7 +219,7 @@ def observe_event(ev):
     if nb is None or len(nb) == 0:
         o['noise'] = None
     else:
-        o['noise'] = [[float(x) for x in nb[a][0]] for a in range(len(nb))]
+        o['noise'] = [[float(x) for part in nb[a] for x in np.atleast_1d(part)] for a in range(len(nb))]      # freqs + amps + phases
     wf = _nothing(lambda: ev.get_waveforms())
     if wf is None or len(wf) == 0:
         o['waveforms'] = None
@@ -274,6 +274,8 @@ def compare_event(where, exp, obs):
         e, o = exp[key], obs[key]
         if key in ('rays', 'waveforms') and e == []:
             e = None                      # zero rows recorded reads back as nothing
+        if key == 'noise' and e == 'unobservable':
+            continue
         if e != o:
             raise Divergence('%s %s' % (where, key), e, o)
     e, o = exp['components'], obs['components']
@@ -337,11 +339,12 @@ class H5Driver:
         self.path = os.path.join(self.dir, 'f.h5')
         self.nbeh += 1
         self.lazy = self.nbeh % 2 == 0          # every other behaviour with antennas whose noise master is created lazily
-        if self.lazy:
-            self.det = [LazyNoiseAntenna(position=(10.0 * a, 0.0, -100.0 - a), freq_range=(0.1, 0.4), noise_rms=1.0, noisy=True)
-                        for a in range(N_ANT)]
-        else:
-            self.det = [TagAntenna(position=(10.0 * a, 0.0, -100.0 - a), noisy=False) for a in range(N_ANT)]
+        # real thermal noise of amplitude zero: waveforms stay exact, the noise basis (frequencies, amplitudes, phases) is real.
+        # In the non-lazy behaviours the noise exists before the add (as after a trigger evaluation); in the lazy ones it is
+        # created by whatever first computes a waveform -- possibly the writer itself (D41)
+        self.det = [TagAntenna(position=(10.0 * a, 0.0, -100.0 - a), freq_range=(1e7, 4e8), noise_rms=0.0, noisy=True)
+                    for a in range(N_ANT)]
+        self.noise_exp = {}
         self.writer = File(self.path, 'w', **self._options())
         self.writer.open()
         self.writer.set_detector(self.det)
@@ -369,13 +372,13 @@ class H5Driver:
         event = BadEvent(p['np']) if p['pbad'] else make_event(k, p)
         for a, ant in enumerate(self.det):
             ant.clear(reset_noise=True)
-            if self.lazy:
-                ant.stub = (k, a)
-            else:
-                ant._noise_master = NoiseStub(k, a)
             for j in range(n_waves(p, a, k)):
                 t = np.arange(4) * 1e-9 + j * 1e-6
                 ant.signals.append(pyrex.Signal(t, [float(wtag(k, j, a)), 1.0, -1.0, 0.5]))
+        probe = np.arange(4) * 1e-9
+        if not self.lazy:
+            for ant in self.det:
+                ant.make_noise(probe)                 # the noise exists before the add
         form = p['form']
         trig = bool(p['trig'])
         triggered = {'bool': trig, 'dict': {'global': trig}, 'dictx': {'global': trig, 'foo': k % 2 == 0},
@@ -395,6 +398,27 @@ class H5Driver:
                             events_thrown=thrown(k))
         except Exception as ex:      # any error type counts as a rejection
             raised = ex
+        # what the noise of every antenna consisted of at the add.  The noise object is reachable only through the attribute the
+        # writer itself reads; if it is not there (renamed by a refactoring) the noise bases are not compared at all
+        rows = []
+        for a, ant in enumerate(self.det):
+            inner = ant
+            while hasattr(inner, 'antenna'):
+                inner = inner.antenna
+            nz = getattr(inner, '_noise_master', _MISSING)
+            if nz is _MISSING:
+                rows = None
+                break
+            rows.append([] if nz is None else [float(x) for part in (nz.freqs, nz.amps, nz.phases) for x in np.atleast_1d(part)])
+        self.noise_exp[k] = rows
+        if rows is not None and self.lazy:
+            # the lazily created noise must exist exactly for the antennas whose waveforms the writer had to compute
+            c = self.c
+            computed = gate(c, 'waveforms', p) or (gate(c, 'triggers', p) and (gate(c, 'antenna_triggers', p) or extra(p)))
+            if raised is None:
+                for a in range(N_ANT):
+                    if bool(rows[a]) != bool(computed and n_waves(p, a, k) > 0):
+                        raise Divergence('add #%d: noise of antenna %d exists after the add' % (k, a), bool(computed and n_waves(p, a, k) > 0), bool(rows[a]))
         if last['res'] == 'either':
             return
         if last['res'] == 'raises' and raised is None:
@@ -407,7 +431,7 @@ class H5Driver:
         """read the file back (through a flushed copy while the writer is open)"""
         self.nsteps += 1
         acc = st['acc']
-        exp = [expected_event(self.c, a['k'], a['p'], self.lazy) for a in acc]
+        exp = [expected_event(self.c, a['k'], a['p'], self.lazy, self.noise_exp.get(a['k'])) for a in acc]
         is_open = self.writer is not None and self.writer.is_open
         if is_open:
             self.writer['/'].file.flush()
